@@ -5,6 +5,7 @@
 //!   tzp.rule x<bytes> <0|1>      -> `err` | canonical rule dump
 //!   tzp.enc <ver> x<footer> <block> <block> -> x<bytes>   (the harness's writer vs Spec.encodeTzif)
 //!   tzp.render <rule fields…>    -> x<bytes>              (the harness's canonical renderer vs Spec.renderTz)
+//!   tzp.caps x<bytes>            -> the three `with_capacity` requests (element counts; accepted files)
 //!   tzp.layout x<bytes>          -> the block lengths the header counts announce and the footer length (accepted files)
 //!   tzp.at  <dump> t1,t2,…       -> o<off>:<dst> | err | panic   (three-valued lookup by instant on an accepted zone)
 //!   tzp.loc <dump> ℓ1:y1,…       -> s<off> | a<o1>/<o2> | n | err | panic   (… by wall clock)
@@ -16,6 +17,52 @@
 use crate::ctx::*;
 use chrono::__verif_tz as vt;
 use chrono::{DateTime, Datelike, MappedLocalTime, NaiveDateTime};
+
+/// Allocation probe: a counting wrapper around the system allocator, switched on only around a call
+/// of the TZif reader (one relaxed atomic load per allocation otherwise).  It makes the property's
+/// "no allocation beyond the input size" clause observable on the implementation.
+mod alloc_probe {
+    use std::alloc::{GlobalAlloc, Layout, System};
+    use std::sync::atomic::{AtomicBool, AtomicUsize, Ordering::Relaxed};
+    pub static ON: AtomicBool = AtomicBool::new(false);
+    pub static TOTAL: AtomicUsize = AtomicUsize::new(0);
+    pub static MAX_REQ: AtomicUsize = AtomicUsize::new(0);
+    pub struct Counting;
+    fn note(n: usize) {
+        if ON.load(Relaxed) {
+            TOTAL.fetch_add(n, Relaxed);
+            MAX_REQ.fetch_max(n, Relaxed);
+        }
+    }
+    unsafe impl GlobalAlloc for Counting {
+        unsafe fn alloc(&self, l: Layout) -> *mut u8 {
+            note(l.size());
+            System.alloc(l)
+        }
+        unsafe fn alloc_zeroed(&self, l: Layout) -> *mut u8 {
+            note(l.size());
+            System.alloc_zeroed(l)
+        }
+        unsafe fn dealloc(&self, p: *mut u8, l: Layout) {
+            System.dealloc(p, l)
+        }
+        unsafe fn realloc(&self, p: *mut u8, l: Layout, new_size: usize) -> *mut u8 {
+            note(new_size);
+            System.realloc(p, l, new_size)
+        }
+    }
+    #[global_allocator]
+    static A: Counting = Counting;
+    /// run `f` with counting on: `(result, total bytes requested, largest single request)`
+    pub fn measure<T>(f: impl FnOnce() -> T) -> (T, usize, usize) {
+        TOTAL.store(0, Relaxed);
+        MAX_REQ.store(0, Relaxed);
+        ON.store(true, Relaxed);
+        let r = f();
+        ON.store(false, Relaxed);
+        (r, TOTAL.load(Relaxed), MAX_REQ.load(Relaxed))
+    }
+}
 
 // ------------------------------------------------------------------------------------------ models
 #[derive(Clone, Debug)]
@@ -666,6 +713,7 @@ fn layout_oracle(c: &mut Ctx, bytes: &[u8], label: &str) {
             c.fail("accepted v1 file whose length differs from what its counts announce", &format!("{} announced={} file={}", label, a4, hex(bytes)));
         }
         c.op(&format!("tzp.layout {}", hex(bytes)), &format!("{} - 0", a4));
+        caps_op(c, bytes, bytes);
         return;
     }
     if a4 > len {
@@ -678,12 +726,33 @@ fn layout_oracle(c: &mut Ctx, bytes: &[u8], label: &str) {
         return;
     }
     c.op(&format!("tzp.layout {}", hex(bytes)), &format!("{} {} {}", a4, a8, len - a4 - a8));
+    caps_op(c, bytes, &bytes[a4 as usize..]);
+}
+/// the `Vec::with_capacity` requests the model logs (element counts) are the counts of the header
+/// of the block that is decoded (`hdr` starts at that header)
+fn caps_op(c: &mut Ctx, bytes: &[u8], hdr: &[u8]) {
+    let cnt = |k: usize| be32(&hdr[20 + 4 * k..]);
+    c.op(&format!("tzp.caps {}", hex(bytes)), &format!("{} {} {}", cnt(3), cnt(4), cnt(2)));
 }
 
 /// run the reader on `bytes`: emits the correspondence op, guards against panics, probes accepted
 /// zones; returns the dump if accepted
 fn read_tzif(c: &mut Ctx, bytes: &[u8], label: &str, times: &[i64]) -> Option<String> {
-    let r = guard(|| vt::from_tzif(bytes));
+    let (r, total, max_req) = alloc_probe::measure(|| guard(|| vt::from_tzif(bytes)));
+    // "no allocation beyond the input size": the three vectors of 16-byte elements may together ask
+    // for up to 16/5 of the input (parse_allocs_bounded_bytes) and nothing else allocates on the Ok
+    // path; on the Err path the hook additionally formats the error value (a short text)
+    let slack: u128 = if matches!(r, Ok(Ok(_))) { 0 } else { 5 * 1024 };
+    if 5 * (total as u128) > 16 * (bytes.len() as u128) + slack {
+        c.fail("TZif reader allocated beyond 3.2 x the input size", &format!("{} total={} largest={} len={} file={}", label, total, max_req, bytes.len(), hex(&bytes[..bytes.len().min(200)])));
+    }
+    c.count(if total == 0 {
+        "alloc:none"
+    } else if 5 * total <= 16 * bytes.len() {
+        "alloc:within-3.2x-input"
+    } else {
+        "alloc:error-text-only-excess"
+    });
     match r {
         Err(()) => {
             c.count(&format!("{}:PANIC", label));
